@@ -89,6 +89,16 @@ def bloom_params(n, p):
     return rc, m.value, k.value
 
 
+def bloom_params_sweep(n0, count, p):
+    """[(m, k)] for n0 .. n0+count-1 computed by the C reference in one call"""
+    m, k = (C.c_uint64 * count)(), (C.c_uint32 * count)()
+    f = lib().ref_bloom_params_sweep
+    f.restype = None
+    f.argtypes = [C.c_uint64, C.c_uint64, C.c_float, C.POINTER(C.c_uint64), C.POINTER(C.c_uint32)]
+    f(n0, count, p, m, k)
+    return list(m), list(k)
+
+
 def bloom_footer(raw):
     est, added, m = C.c_uint64(), C.c_uint64(), C.c_uint64()
     fpr, k = C.c_float(), C.c_uint32()
